@@ -683,6 +683,101 @@ def run(chk):
                    "" if tests else f"no `{race}.<statistic> is None` test with an early return dominates the loop: the comparison crashes when only this race lacks the statistic",
                    key=f"{_R}:ComparisonReporter.{name}:iterated-nullable:{u(lp.iter)}")
     chk.ob("O20.5", "iterated optional statistics located", n_it >= 2, rep, f"{n_it} loop(s) over optional list-valued statistics")
+    # what the comparison reads as statistic X of a stored race IS statistic X: every results attribute the comparison selects is initialised from the stored key of the same name
+    init_keys = {}
+    for n in walk_body(gsi):
+        if isinstance(n, ast.Assign) and is_self_attr(n.targets[0]) and isinstance(n.value, ast.Call) and u(n.value.func) == "self.v" and len(n.value.args) > 1 and isinstance(n.value.args[1], ast.Constant):
+            init_keys[n.targets[0].attr] = (n.value.args[1].value, n)
+    read_attrs = set()
+    for name, f in cm.items():
+        for x in ast.walk(f):
+            if isinstance(x, ast.Attribute) and isinstance(x.value, ast.Name) and x.value.id in ("baseline_stats", "contender_stats", "stats") and x.attr in init_keys:
+                read_attrs.add(x.attr)
+            if isinstance(x, ast.Call) and dotted(x.func) == "getattr" and len(x.args) >= 2 and isinstance(x.args[1], ast.JoinedStr):
+                suffix = "".join(str(v.value) for v in x.args[1].values if isinstance(v, ast.Constant))
+                read_attrs |= {a_ for a_ in init_keys if suffix and a_.endswith(suffix)}
+    for a_ in sorted(read_attrs):
+        k_, n_ = init_keys[a_]
+        chk.ob("O20.2", f"compared statistic `{a_}` is read back from the stored key of the same name", k_ == a_, n_, f"GlobalStats.{a_} <- key '{k_}'", key=f"esrally/metrics.py:GlobalStats.__init__:{a_}")
+    chk.ob("O20.2", "compared statistics located in the results class", len(read_attrs) >= 30, gsi, f"{len(read_attrs)} attribute(s)")
+    # the Diff column is formatter(contender - baseline) while the value columns show formatter(baseline) / formatter(contender): that is the same difference only for a LINEAR
+    # formatter (a fixed unit conversion). A formatter that picks its unit per value (by magnitude) scales the three numbers independently.
+    cv = repo.module("esrally/utils/convert.py")
+    chk.use(cv)
+
+    def _nonlinear(fn, vparam, depth=0):
+        """the convert function compares its value (or something derived from it) by magnitude, directly or through another convert function."""
+        derived = {vparam}
+        for _ in range(3):
+            for n in walk_body(fn):
+                if isinstance(n, ast.Assign) and any(isinstance(x, ast.Name) and x.id in derived for x in ast.walk(n.value)):
+                    for t in n.targets:
+                        derived |= {x.id for x in ast.walk(t) if isinstance(x, ast.Name)}
+        for n in walk_body(fn):
+            if isinstance(n, ast.Compare) and any(isinstance(o, (ast.Lt, ast.Gt, ast.LtE, ast.GtE)) for o in n.ops) and any(isinstance(x, ast.Name) and x.id in derived for x in ast.walk(n)):
+                return True
+            if isinstance(n, ast.Call) and isinstance(n.func, ast.Name) and depth < 3 and any(isinstance(x, ast.Name) and x.id in derived for a_ in n.args for x in ast.walk(a_)):
+                try:
+                    callee = cv.func(n.func.id)
+                except AnchorMissing:
+                    continue
+                pos = next((i_ for i_, a_ in enumerate(n.args) if any(isinstance(x, ast.Name) and x.id in derived for x in ast.walk(a_))), 0)
+                cps_ = params_of(callee)
+                if pos < len(cps_) and _nonlinear(callee, cps_[pos], depth + 1):
+                    return True
+        return False
+
+    n_fmt = 0
+    for f, c in sites:
+        fm = bind_args(c, line).get("formatter")
+        if fm is None:
+            continue
+        n_fmt += 1
+        verdict, why = True, "linear"
+        tgt, nbound = fm, 0
+        if isinstance(fm, ast.Call) and last_attr(fm.func) == "partial" and fm.args:
+            tgt, nbound = fm.args[0], len(fm.args) - 1
+        if isinstance(tgt, ast.Lambda):
+            verdict = not any(isinstance(x, (ast.Compare, ast.IfExp, ast.Call)) for x in ast.walk(tgt.body))
+            why = "lambda"
+        elif isinstance(tgt, ast.Call) and dotted(tgt.func) == "convert.factor":
+            why = "constant factor"
+        elif (dotted(tgt) or "").startswith("convert."):
+            try:
+                fn_ = cv.func(dotted(tgt).split(".", 1)[1])
+                ps_ = params_of(fn_)
+                verdict = nbound < len(ps_) and not _nonlinear(fn_, ps_[nbound])
+                why = f"convert.{fn_.name}" + ("" if verdict else " chooses its scale from the magnitude of the value")
+            except AnchorMissing:
+                verdict, why = False, f"{dotted(tgt)} not found in convert.py"
+        else:
+            verdict, why = False, f"unrecognised formatter {short(fm, 40)}"
+        chk.ob("O20.3", f"{f.name}: the line's formatter is a fixed (linear) unit conversion", verdict, c, why + ("" if verdict else ": baseline, contender and their difference are each scaled to their own unit, so the Diff column is not contender minus baseline in the line's unit"),
+               key=f"{_R}:ComparisonReporter.{f.name}:linear-formatter:{label_text(bind_args(c, line).get('metric')) or '?'}")
+    chk.ob("O20.3", "formatters of comparison lines located", n_fmt >= 10, line, f"{n_fmt} line(s) with a formatter")
+    # list-valued statistics are paired by id in nested loops (for b in baseline.X: for c in contender.X: if c[K] == <id>): the id compared with is the one of the CURRENT baseline
+    # element — bound inside this outer loop from its loop variable (a name left over from an earlier loop pairs every element with the last one of that loop)
+    n_pair = 0
+    for name, f in cm.items():
+        for outer in [n for n in walk_body(f) if isinstance(n, ast.For) and isinstance(n.target, ast.Name)]:
+            for inner in [n for n in outer.body if isinstance(n, ast.For) and isinstance(n.target, ast.Name)]:
+                for t in [n for n in ast.walk(inner) if isinstance(n, ast.If)]:
+                    m_ = pat.match(t.test, "V_c[E_k] == V_id", binds={"c": inner.target.id})
+                    if m_ is None:
+                        direct = pat.match(t.test, "V_c[E_k] == V_b[E_k2]", binds={"c": inner.target.id, "b": outer.target.id})
+                        if direct is not None:
+                            n_pair += 1
+                            chk.ob("O20.2", f"{name}: `{u(inner.iter)}` paired with the current element of `{u(outer.iter)}`", direct["k"] == direct["k2"], t, u(t.test))
+                        continue
+                    n_pair += 1
+                    idv = m_["id"]
+                    binds_here = [n for n in outer.body if isinstance(n, ast.Assign) and any(isinstance(x, ast.Name) and x.id == idv for x in n.targets)
+                                  and pat.match(n.value, f"V_b[{m_['k']}]", binds={"b": outer.target.id}) is not None and n.lineno < inner.lineno]
+                    ok = len(binds_here) == 1
+                    chk.ob("O20.2", f"{name}: `{u(inner.iter)}` paired with the current element of `{u(outer.iter)}`", ok, t,
+                           f"`{u(t.test)}`" + ("" if ok else f": `{idv}` is not bound from `{outer.target.id}[{m_['k']}]` inside this loop — it still holds the value an earlier loop left behind"),
+                           key=f"{_R}:ComparisonReporter.{name}:pairing:{u(outer.iter)}")
+    chk.ob("O20.2", "id-paired statistics located", n_pair >= 5, rep, f"{n_pair} pairing test(s)")
     # asymmetric None guards -> advisory
     for name, f in cm.items():
         for n in walk_body(f):
